@@ -27,6 +27,10 @@ def snapshot(x, _depth=0, _seen=None):
     """
     if _depth > 400:
         return ("<deep>",)
+    if type(x) is int and x.bit_length() > 13000:
+        # beyond the interpreter's limit for int -> text (4300 digits): described without ever printing it
+        import hashlib
+        return (_cls(x), f"<{x.bit_length()} bits, {'-' if x < 0 else '+'}, blake2b {hashlib.blake2b(hex(x).encode(), digest_size=8).hexdigest()}>")
     if x is None or isinstance(x, (bool, int, str, bytes)) and type(x) in (bool, int, str, bytes):
         return (_cls(x), x)
     if type(x) is float:
